@@ -1,7 +1,7 @@
 (* C07 — property theorems. Nothing but statements closed by `exact <lemma>`, Print Assumptions beneath each,
    and the Examples (witness schedules: hypotheses are satisfiable, the three repaired defects stay documented). *)
 From Coq Require Import List Bool Arith NArith.
-From C07 Require Import Model ProofsInv ProofsIdx.
+From C07 Require Import Model ProofsInv ProofsIdx ProofsSafe ProofsCount.
 Import ListNotations.
 
 (* thm:C07_handover_no_gap, part 1 — the proxyFrac automaton. In EVERY state reachable by ANY label list (any
@@ -35,13 +35,54 @@ Theorem C07_handover_no_gap :
 Proof. exact handover_no_gap. Qed.
 Print Assumptions C07_handover_no_gap.
 
-(* thm:C07_reader_safe — PARTIAL. Full statement (not closed in the time box, checked on every replayed schedule by
-   the spec checker CaseDefs.case_spec_ok instead):
-     forall c n ls, grun (c_bulks c) (c_qs c) (ghost0 _) ls (run c (init c n) ls) = true      for c_ver c = all fixes,
-   i.e. every ID a search returns belongs to a submitted bulk of that fraction, lies in the range, satisfies the
-   query; every acknowledged document is visible; a fetch returns exactly the document's bytes, and finds every
-   acknowledged or search-returned document.
-   Proved (all reachable states, all schedules): the index invariants the statement rests on. *)
+(* thm:C07_handover_no_gap, part 3 — the counting invariant: indexWg of a fraction is the number of writers that are
+   mid-bulk on it, so indexWg = 0 (which part 2 shows from WaitWriteIdle on) means NO writer is between an accepted
+   Append and wg.Done on that fraction: frac.Seal reads a quiescent index. All reachable states. *)
+Theorem C07_handover_wg_zero_no_writer :
+  forall c n ls g f,
+    let st := exec c (init c n) ls in
+    nth_error (fracs st) g = Some f -> f_wg f = 0 ->
+    forall w x, nth_error (ws st) w = Some x -> 2 <= w_pc x -> w_g x <> g.
+Proof. exact wg_zero_no_writer. Qed.
+Print Assumptions C07_handover_wg_zero_no_writer.
+
+(* thm:C07_reader_safe — for the code as it is now (all-token queued last), in EVERY state reachable by ANY label
+   list, for every reader and every way its next step can produce an answer:
+   (1)(2) every ID a search returns (in one step on a sealed/empty fraction, or at the last leaf of a stepwise search
+          on the active fraction) is the ID of a document d of a bulk this fraction accepted, lies in the query range,
+          and d's tokens satisfy the query (AND / OR / NAND / NOT over literal tokens, as parsed);
+   (3)(4) every body a fetch returns for a requested ID is the body of a document with that ID in a bulk this fraction
+          accepted (exactly its bytes) - whichever interleaving, whichever fetch-guard setting.
+   What holds for NOT-found is C07_fetch_after_search below. *)
+Theorem C07_reader_safe :
+  forall c n ls, v_all_last (c_ver c) = true ->
+  let st := exec c (init c n) ls in
+  forall r x, nth_error (rs st) (N.to_nat r) = Some x ->
+    (forall j qn g q ids,
+        nth_error (r_snap x) (N.to_nat j) = Some g -> nth_error (c_qs c) (N.to_nat qn) = Some q ->
+        snd (step c st (LSB r j qn)) = ORes ids -> sound_res c (getf st g) q ids)
+    /\ (forall g q pc a b m nn s p ids,
+        r_op x = RSearch g q pc a b m nn s p ->
+        snd (step c st (LR r)) = ORes ids -> sound_res c (getf st g) q ids)
+    /\ (forall j ids g bodies,
+        nth_error (r_snap x) (N.to_nat j) = Some g ->
+        snd (step c st (LFB r j ids)) = OFetch bodies -> Forall2 (sound_body c (getf st g)) ids bodies)
+    /\ (forall g fl nb bodies,
+        r_op x = RFetch g fl nb ->
+        snd (step c st (LR r)) = OFetch bodies ->
+        Forall2 (fun xb ob => sound_body c (getf st g) (fst xb) ob) fl bodies).
+Proof. exact reader_safe. Qed.
+Print Assumptions C07_reader_safe.
+
+(* the invariant the a28a3f7 repair establishes: a LID in the all-token's posting is in the posting of every token
+   of its document (the all-token is queued last by every writer) *)
+Theorem C07_reader_safe_all_token_last :
+  forall c n ls g f lid d t,
+    v_all_last (c_ver c) = true ->
+    nth_error (fracs (exec c (init c n) ls)) g = Some f ->
+    In lid (post f 0%N) -> ldoc f lid d -> memN t (d_toks d) = true -> In lid (post f t).
+Proof. exact all_token_last. Qed.
+Print Assumptions C07_reader_safe_all_token_last.
 
 (* posting ⊆ appended LIDs: every LID in a token's sorted list or queue is below len(MIDs) of its fraction *)
 Theorem C07_reader_safe_postings_within_ids :
